@@ -197,6 +197,12 @@ def run(ctx):
     # corpus: witnesses of the fixed defects (phase i term; readout with a 1)
     do(ctx, 'expect_poly', [[[[[0, 1], 0], [[1, 0], 0]], 0], [[[0, 1], 1, [1, 0]]], 'pauli'], nontrivial='w1', sample=True)
     do(ctx, 'get_prob', ['np', [[[[0, 1], 2], [[1, 0], 0]], 0]], nontrivial='w2')
+    # LARGE registers: byte, word and cache-line boundaries of every packed or vectorised representation (8, 9, 16, 17, 33, 64, 65 qubits); model correspondence only
+    for n in gen.BIG:
+        for be in ('np', 'torch'):
+            t = gen.rtableau(rng, ctx.model, n)
+            obs = [gen.rpauli(rng, n, herm=True) for _ in range(2)] + [[t[0][j][0], (t[0][j][1] + rng.choice([0, 2])) % 4] for j in rng.sample(range(n), 3)]
+            do(ctx, 'expect_corr', [be, t, obs], nontrivial=('big', be, n))
     for it in range(int(500 * B)):
         n = rng.randint(1, 6)
         t = gen.rtableau(rng, ctx.model, n)
